@@ -97,6 +97,8 @@ class Obligation:
         # bounded-inconclusive tolerated (C boundary forces concretisation)
         self.may_be_partial: bool = meta.pop("may_be_partial", False)
         self.replay_fn: Optional[Callable] = meta.pop("replay_fn", None)
+        # concrete example inputs (kwargs dicts): replayed in plain Python with call tracing; they must hold
+        self.examples: Sequence[Dict[str, Any]] = meta.pop("examples", ())
         # obligations of one group share their site-coverage requirement (union)
         self.group: str = meta.pop("group", None) or self.name
         self.twins: bool = meta.pop("twins", self.group == self.name)
